@@ -28,6 +28,8 @@ def box(name, nv):
         return [1.0] * nv, [1.0 + 1e-9] * nv
     if name == 'wide':
         return [-5e5] * nv, [5e5] * nv
+    if name == 'mid':                        # thousands wide: far below RPSO's light-speed constant
+        return [-2000.0] * nv, [3000.0] * nv
     if name == 'degenerate':
         return [2.0] * nv, [2.0] * nv
     if name == 'huge':                       # width 1.6e308: still a finite float
@@ -396,8 +398,8 @@ def hunts(quick, focus, timeout):
             cfg['repro'] = False
             out.append(cfg)
     if 'RPSO' in opts:
-        for i in range(6 if quick else 40):
-            c = {'objective': rnd.choice(OBJECTIVES), 'ret': ['pyfloat', 'npscalar'][i % 2], 'box': 'wide', 'agents': [2, 5][i % 2],
+        for i in range(9 if quick else 60):
+            c = {'objective': rnd.choice(OBJECTIVES), 'ret': ['pyfloat', 'npscalar'][i % 2], 'box': ['wide', 'wide', 'mid'][i % 3], 'agents': [2, 5][i % 2],
                  'n_variables': [1, 2][(i // 2) % 2], 'n_dimensions': 1, 'n_iterations': [3, 10][(i // 2) % 2], 'draws': ['seeded', 'alt', 'high'][i % 3],
                  'hp': 'default', 'store_best_only': False, 'hook': 'observe'}
             cfg = make('RPSO', 'search', c, 8500 + i, timeout)
